@@ -124,4 +124,53 @@ PROPS = {
         "assumptions": COMMON_ASSUMPTIONS + ["the host CPU supports AVX2 (otherwise the run is inconclusive)"],
         "technique": "runtime monitoring: naive-search oracle over hook-steered SIMD anchor positions, repeated under AddressSanitizer",
     },
+    "C12": {
+        "rule": ("random: generated filters of the C01-C03/C17 generators; directed: a target field (every field of "
+                 "the rich scheme in turn) occurs exactly once, in a chosen position (lhs, index-path base, call "
+                 "argument 1/2/3, nested call, parenthesised logical argument, quantifier argument, lhs of `in $list`, "
+                 "call inside a list lhs, list comparison inside a call argument) among 0-2 random sub-filters that do "
+                 "not mention it; values: value expressions. For each: uses()/uses_list() of EVERY field of the scheme "
+                 "against the set of identifiers of the generating AST, and 20 non-field names (prefixes, extensions, "
+                 "case variants, function names) that must give an error. distinct_nontrivial = distinct texts that "
+                 "use at least one field."),
+        "quick": [st("rel")],
+        "thorough": [st("rel"), st("dbg")],
+        "floors": {"quick": {"evaluations": 200000, "distinct_nontrivial": 4000, "field_used_in_list": 1000}},
+        "assumptions": COMMON_ASSUMPTIONS,
+    },
+    "C13": {
+        "rule": ("shapes: EVERY sequence of the nesting constructs (parentheses, not, any(), call with the nested "
+                 "expression as first argument, as second argument, array-typed call, Bool->Array call) applied "
+                 "inside-out to 4 leaves up to depth 6 (thorough 8), in 3 placements (alone, right operand of a chain, "
+                 "inside a longer chain), each parsed under every limit d in 0..=8: accepted iff RefSem nesting <= d, "
+                 "rejection must be the nesting-limit error, and the hooked depth counter must equal the nesting of "
+                 "accepted filters; values: call chains under parse_value for d in 0..=12; large: random shapes of "
+                 "depth d-1,d,d+1 for d in {16,64,128,129,200} and the default parser; deep: per construct, the whole "
+                 "life cycle (parse, serialise, hash, clone, compile, execute, drop) of a depth-128 filter on a "
+                 "2 MiB stack (8 MiB unoptimised) in its own process with the stack high-water mark measured by "
+                 "stack painting, and a 100000-deep input must be cut off using no more stack than the depth-128 one "
+                 "(x1.25 + 64 KiB). distinct_nontrivial = distinct texts with nesting >= 1."),
+        "quick": [st("rel")],
+        "thorough": [st("rel"), st("dbg")],
+        "floors": {"quick": {"evaluations": 500000, "distinct_nontrivial": 50000, "children_run": 7}},
+        "assumptions": COMMON_ASSUMPTIONS + ["stack use is observed on x86_64 Linux with the toolchain's default codegen"],
+        "technique": "runtime monitoring: reference nesting count + hooked depth counter + stack high-water mark in isolated processes",
+    },
+    "C15": {
+        "rule": ("types-exhaustive: ALL 32764 types with <=12 array/map layers over 4 primitives: Type -> packed "
+                 "CompoundType -> Type, Type -> C CType -> Type, CType built through the C constructor functions, "
+                 "packed layers/len (read from Debug) equal to the C struct, JSON form equal to the documented one, "
+                 "JSON round trip through from_str/from_slice/from_reader/from_value, C-API type JSON; types-deep: "
+                 "sampled types with 13..32 layers (all-array, all-map, both alternations, random); types-too-deep: "
+                 "every layer count 33..130 x 3 layer patterns x 4 feeds must be an error (33 may round-trip "
+                 "identically), standalone and inside a scheme document; schemes: 0..40 fields with dotted, long, "
+                 "non-ASCII and JSON-escaped names and types to depth 3: document equals the documented form, field "
+                 "order, round trip through four feeds, duplicate names rejected. distinct_nontrivial = distinct types "
+                 "with >=1 layer / distinct schemes with >=2 fields."),
+        "quick": [st("rel")],
+        "thorough": [st("rel"), st("dbg")],
+        "floors": {"quick": {"evaluations": 40000, "distinct_nontrivial": 30000, "scheme_feeds_ok": 4000,
+                             "duplicates_rejected": 2000, "too_deep_rejected": 1000}},
+        "assumptions": COMMON_ASSUMPTIONS + ["the wasm binding is not executed (no wasm target); its only logic, Scheme: Deserialize with owned keys, is exercised through from_reader/from_value"],
+    },
 }
